@@ -76,19 +76,24 @@ def runTxs (env : Env) : List Tx â†’ App â†’ List (Signer Ã— Nat) â†’ List TxR â
     let r := runTx env s incs tx
     runTxs env rest r.2.1 r.2.2 (acc ++ [r.1])
 
-/-- one block: BeginBlockers (slashing, poa), transactions, EndBlocker (staking) -/
-def block (env : Env) (s : App) (b : Block) : Except Halt (BlockOut Ã— App) :=
+/-- the part of a block before x/staking's EndBlocker: BeginBlockers (slashing, poa), then the transactions -/
+def beforeEnd (env : Env) (s : App) (b : Block) : Except Halt (List TxR Ã— App) :=
   let s := { s with height := s.height + 1, time := s.time + b.dt }
   match slashingBegin b.votes s with
   | .error h => .error h
   | .ok s =>
     match poaBegin env.lim s with
     | .error h => .error h
-    | .ok s =>
-      let (txrs, s) := runTxs env b.txs s [] []
-      match s.stakingEndBlock with
-      | .error h => .error h
-      | .ok (ups, s) => .ok ({ txrs := txrs, updates := ups }, s)
+    | .ok s => .ok (runTxs env b.txs s [] [])
+
+/-- one block: BeginBlockers (slashing, poa), transactions, EndBlocker (staking) -/
+def block (env : Env) (s : App) (b : Block) : Except Halt (BlockOut Ã— App) :=
+  match beforeEnd env s b with
+  | .error h => .error h
+  | .ok (txrs, s) =>
+    match s.stakingEndBlock with
+    | .error h => .error h
+    | .ok (ups, s) => .ok ({ txrs := txrs, updates := ups }, s)
 
 def emptyApp : App :=
   { vals := [], dels := [], last := [], lastTotal := 0, index := [], ubq := [], cons := [],
